@@ -183,9 +183,19 @@ def check_doc(run: common.Run, d: Any, path_choices: List[int], styles: List[int
         back = json.loads(text)
         if not strict_eq(back, d):
             report("encoder-roundtrip-differs", case, f"{text[:200]}")
+        # the other ways the json module drives "the library's encoder": json.dump() to a file and iterencode() (they do not call encode())
+        import io
+
+        buf = io.StringIO()
+        json.dump(c, buf, cls=CELJSONEncoder)
+        for how, t2 in (("json.dump", buf.getvalue()), ("iterencode", "".join(CELJSONEncoder().iterencode(c))), ("encode", CELJSONEncoder().encode(c))):
+            if not strict_eq(json.loads(t2), d):
+                report(f"encoder-roundtrip-differs-via-{how}", case, f"{t2[:200]}")
         c2 = json.loads(json.dumps(d), cls=CELJSONDecoder)
         if outcome.value_outcome(c2) != outcome.value_outcome(c):
             report("decoder-differs-from-json_to_cel", case, f"{c2!r:.200}")
+    except common.Found:
+        raise
     except Exception as ex:
         report("encoder-raises", case, f"{type(ex).__name__}: {ex}")
     # (c) navigation
